@@ -4,7 +4,7 @@ here="$(cd "$(dirname "$0")/.." && pwd)"; . "$here/env.sh"
 for pf in "$@"; do
   d=/root/work/benign/scratch.$$; "$here/tools/scratch.sh" "$d" || exit 3
   if ! (cd "$d" && patch -p1 -s < "$pf"); then echo "BENIGN $(basename $pf): patch does not apply"; rm -rf "$d"; continue; fi
-  out=/root/work/benign/$(basename "$pf" .diff).vsa.txt
+  out=${BENIGN_RES:-/root/work/benign}/$(basename "$pf" .diff).vsa.txt
   "$here/bin/vsa" -p all -repo "$d" -evidence none -findings "$here/known_findings.txt" > "$out" 2>&1
   firing=$(grep '^VIOLATION property=' "$out" | sed 's/VIOLATION property=\([A-Z0-9]*\).*/\1/' | sort -u | tr '\n' ' ')
   echo "BENIGN $(basename $pf): firing: ${firing:-none}"
